@@ -233,8 +233,12 @@ def run_coq_cases(name, imports, case_type, check_fn, cases, shard=400, extra_de
                 continue
             for x in re.findall(r"\d+", m.group(1)):
                 failing.append(k * shard + int(x))
-    for old in glob.glob(os.path.join(d, f"{name}_*.vo")) + glob.glob(os.path.join(d, f".{name}_*.aux")) + glob.glob(os.path.join(d, f"{name}_*.glob")):
+    for old in (glob.glob(os.path.join(d, f"{name}_*.vo")) + glob.glob(os.path.join(d, f".{name}_*.aux")) + glob.glob(os.path.join(d, f"{name}_*.glob"))
+                + glob.glob(os.path.join(d, f"{name}_*.vok")) + glob.glob(os.path.join(d, f"{name}_*.vos"))):
         os.remove(old)
+    if ok and not failing:
+        for old in glob.glob(os.path.join(d, f"{name}_*.v")):      # nothing to look at: do not let the shards pile up
+            os.remove(old)
     return ok, sorted(failing), "\n".join(logs)
 
 
